@@ -263,6 +263,10 @@ def parse_rvalue(s):
     m = re.fullmatch(r"([\w:<>,' &\[\];()]+)::(\w+)", s, re.S)
     if m:
         return ("variant", m.group(1), m.group(2), [])
+    # tuple-struct aggregate: Name(op, ...)
+    m = re.fullmatch(r"([A-Z]\w*(?:<.*?>)?)\((.*)\)", s, re.S)
+    if m:
+        return ("tuple", [parse_operand(x) for x in split_top(m.group(2)) if x])
     raise MirParseError("rvalue: " + s)
 
 
